@@ -60,4 +60,13 @@ for name in sorted(os.listdir(os.path.join(V, "seeded"))):
     summ = (m.get("summary") or "").replace("\n", " ").replace("|", "/")
     need = (m.get("needs_to_manifest") or "").replace("\n", " ").replace("|", "/")
     out.append(f"| {name} | {m.get('breaks_property')} | {summ[:220]} — needs: {need[:200]} | {', '.join(caught) or '-'} | {', '.join(missed) or '-'} | {m.get('note', '')} |")
-print("\n".join(out))
+text = "\n".join(out)
+import sys
+if "--update" in sys.argv:
+    d = open(os.path.join(V, "DESIGN.md")).read()
+    b, e = "<!-- SENSITIVITY:BEGIN -->", "<!-- SENSITIVITY:END -->"
+    i, j = d.index(b) + len(b), d.index(e)
+    open(os.path.join(V, "DESIGN.md"), "w").write(d[:i] + "\n" + text + "\n" + d[j:])
+    print("DESIGN.md updated")
+else:
+    print(text)
